@@ -66,7 +66,7 @@ def run(pid, tier):
         if not acc:
             cmd.append('--no-accept')
         cmds.append(cmd)
-    res = C.run_parallel(cmds, timeout=C.deadline_s(5400 if tier == 'thorough' else 900))
+    res = C.run_parallel(cmds, timeout=C.deadline_s(2400 if tier == 'thorough' else 900))
     tot = {'states': 0, 'transitions': 0}
     per, samples, exhaustive = [], [], True
     events = {}
